@@ -2,7 +2,11 @@
 
 package iterable
 
-import "fmt"
+import (
+	"fmt"
+	"reflect"
+	"unsafe"
+)
 
 // VerifNode is a pointer-free view of one list node.
 type VerifNode[K comparable, V any] struct {
@@ -80,11 +84,23 @@ func VerifIterPos[K comparable, V any](im *Map[K, V], it Iterator[MapEntry[K, V]
 }
 
 // VerifPoolDump describes the nodes parked in the map's free list (structural fields only), oldest first.
-// Requires the rewritten map.go (the pool is the deterministic shim pool).
+// Requires the rewritten map.go (the pool is the deterministic shim pool). The field is looked up by name: a tree
+// whose Map keeps its spare nodes elsewhere simply has no pool to describe (the deep dump in the state key sees them).
 func VerifPoolDump[K comparable, V any](im *Map[K, V]) []string {
+	f := reflect.ValueOf(im).Elem().FieldByName("pool")
+	if !f.IsValid() || !f.CanAddr() {
+		return nil
+	}
+	p, ok := reflect.NewAt(f.Type(), unsafe.Pointer(f.UnsafeAddr())).Interface().(interface{ Items() []any })
+	if !ok {
+		return nil
+	}
 	var r []string
-	for _, x := range im.pool.Items() {
-		n := x.(*rlItem[K, V])
+	for _, x := range p.Items() {
+		n, ok := x.(*rlItem[K, V])
+		if !ok {
+			continue
+		}
 		r = append(r, fmt.Sprintf("s%d/r%d/p%v/n%v", n.state, n.refCnt, n.prev != nil, n.next != nil))
 	}
 	return r
